@@ -595,6 +595,11 @@ fn c06_fault(case: &Case) {
                     let _ = wr.shutdown().await;
                 }
             }
+            // after a FIN (clean or in mid-frame) the peer keeps the socket open too:
+            // end-of-stream alone must fail the calls
+            if matches!(kill, Kill::Close | Kill::Partial(_)) {
+                sleep_ms(600_000).await;
+            }
             let _ = drainer.await;
             drop(wr);
         });
